@@ -297,7 +297,8 @@ def relevant(prop, f):
     if prop == 'C10':
         return 'error-kind' in parts or 'TooManyHeaders' in f.get('real', '') + f.get('expected', '')
     if prop == 'C12':
-        return f.get('gen') in ('lane-sweep', 'long-sweep', 'stride-pairs') or accepts_forbidden
+        # (buffer-end: a field cut off by the end of the buffer -- the scanner did not stop at the end of the buffer as C12 says it does)
+        return f.get('gen') in ('lane-sweep', 'long-sweep', 'stride-pairs', 'buffer-end') or accepts_forbidden
     if prop == 'C05':
         # a byte the grammar forbids was accepted (or not yet rejected), or a reported field differs
         return accepts_forbidden or f.get('gen') in ('lane-sweep', 'long-sweep', 'stride-pairs') or any(x in parts for x in ('method', 'path', 'reason', 'headers', 'code', 'version', 'invalid-utf8'))
